@@ -145,6 +145,11 @@ void COSyncHandler (CO_SYNC *sync)
         }
     }
 
+    /* PDO communication is active in operational mode only */
+    if ((sync->Node->Nmt.Allowed & CO_PDO_ALLOWED) == 0) {
+        return;
+    }
+
     for (i = 0; i < CO_RPDO_N; i++) {
         /* only a RPDO, received since the last SYNC, is processed */
         if ((sync->RPdo[i] != 0) && (sync->RNew[i] != 0)) {
